@@ -1738,6 +1738,19 @@ where
         self.next_max_seen_event_number
     }
 
+    /// The report turned out empty and was not sent at all.
+    ///
+    /// The watermarks captured by `report()` are still committed by [`Self::set_keep`] -
+    /// whatever made the subscription reportable did not concern it - but the
+    /// last-report timestamp is not: `reported_at` is what the liveness deadline
+    /// ([`Subscription::report_due_at`]) and the expiry are measured from, and the
+    /// subscriber has not received anything. Otherwise changes of attributes the
+    /// subscriber did not subscribe to, arriving more often than half the maximum
+    /// interval, would postpone its liveness report for ever.
+    pub fn set_unsent(&mut self) {
+        self.next_reported_at = self.subscription().reported_at;
+    }
+
     /// Mark the subscription to be kept in the table after the report completes,
     /// meaning the other peer acknowledged our report.
     pub fn set_keep(&mut self) {
@@ -3662,6 +3675,47 @@ mod tests {
             assert!(s.reporting.is_none());
             assert!(s.reporting_cancelled.is_none());
         });
+    }
+
+    #[test]
+    fn unsent_empty_reports_do_not_postpone_the_liveness_report() {
+        // The subscriber subscribed to (1, 2, 3); (9, 9, 9) keeps changing every 20 s, less than
+        // half the maximum interval (60 s). Every change makes the subscription reportable, the
+        // report turns out empty and is not sent. The liveness report must still fall due half a
+        // maximum interval after the last report that WAS sent.
+        let subs: Subscriptions<1> = Subscriptions::new();
+        let pool = TestPool::<2>::new();
+        let subs_bufs: SubscriptionsBuffers<TestPool<2>, 1> = SubscriptionsBuffers::new();
+
+        let base = Instant::now();
+        {
+            let mut rctx = add_sub(&subs, &subs_bufs, &pool, base, 1, 100, 1, 60);
+            rctx.set_keep();
+        }
+
+        let mut sent_empty_liveness_at = None;
+        for i in 1..=5u64 {
+            let now = base + Duration::from_secs(20 * i);
+            subs.notify_attr_changed(9, 9, 9);
+
+            let mut rctx = subs.report(now, 0, &subs_bufs).unwrap();
+            assert!(!rctx.should_report_attr(1, 2, 3));
+            if rctx.should_send_if_empty() {
+                // liveness report: sent although empty
+                sent_empty_liveness_at = Some(20 * i);
+                rctx.set_keep();
+                break;
+            }
+            // empty and not due: not sent
+            rctx.set_unsent();
+            rctx.set_keep();
+        }
+
+        assert_eq!(
+            sent_empty_liveness_at,
+            Some(40),
+            "the liveness report goes out at the first wake-up past half the maximum interval"
+        );
     }
 
     #[test]
